@@ -20,11 +20,11 @@ KINDS = ["mesh", "mesh", "mesh", "points", "path2d", "path3d", "primitive", "sce
 CLASSES = mx.CLASSES_3D + ["tiny_below", "tiny_above", "rot_below", "rot_above"]
 OPS = ["apply_transform", "apply_scale", "apply_translation", "inverse_pair", "compose_pair", "bad_shape", "read"]
 PREREADS = ["face_normals", "vertex_normals", "mass", "edges", "face_adjacency", "bounds", "area", "triangles", "paths", "discrete", "polygons", "length",
-            "face_angles", "vertex_defects", "extents", "centroid", "scale", "area_faces", "edges_unique_length", "face_adjacency_angles", "bounding_box", "polygons_closed"]
+            "face_angles", "vertex_defects", "extents", "centroid", "scale", "area_faces", "edges_unique_length", "face_adjacency_angles", "bounding_box", "polygons_closed", "polygons_full", "convex_hull", "kdtree", "identifier"]
 # derived values that must equal those of an object freshly built from the transformed arrays (whatever was memoised before the call)
 DERIVED = {
     "mesh": [("bounds", 1e-9), ("extents", 1e-9), ("centroid", 1e-9), ("area_faces", 1e-9), ("face_angles", 1e-6), ("vertex_defects", 1e-6), ("edges_unique_length", 1e-9), ("face_adjacency_angles", 1e-6)],
-    "path2d": [("bounds", 1e-9), ("extents", 1e-9), ("length", 1e-9), ("area", 1e-9)],
+    "path2d": [("bounds", 1e-9), ("extents", 1e-9), ("length", 1e-9), ("area", 1e-9), ("polygon_boxes", 1e-9)],
     "path3d": [("bounds", 1e-9), ("extents", 1e-9), ("length", 1e-9)],
     "points": [("bounds", 1e-9), ("extents", 1e-9), ("centroid", 1e-9)],
 }
@@ -101,7 +101,7 @@ class C04(World):
         r = {"salt": rng.randrange(2**31)}
         if kind in ("mesh", "scene"):
             r["mesh"] = meshes.random_recipe(rng, bases=["tetra", "box", "octa", "icosa", "icosa1", "prism5", "torus", "open_box", "two_boxes"], variants=["plain", "plain", "plain", "unreferenced", "dup_vertices"])
-            r.update({"colors": rng.choice([None, "vertex", "face"]), "attributes": rng.random() < 0.5, "density": rng.choice([None, 2.5]), "center_mass": None})
+            r.update({"colors": rng.choice([None, "vertex", "face"]), "attributes": rng.random() < 0.5, "density": rng.choice([None, 2.5]), "center_mass": rng.choice([None, None, [0.1, 0.2, 0.3]])})
         if kind == "primitive":
             r.update({"prim": rng.choice(["Box", "Sphere", "Cylinder", "Capsule", "Extrusion"]), "placed": rng.random() < 0.6, "extents": [round(rng.uniform(0.5, 3), 3) for _ in range(3)], "radius": round(rng.uniform(0.4, 2.5), 3),
                       "height": round(rng.uniform(0.5, 4), 3), "sections": rng.choice([3, 5, 8, 32]), "subdivisions": rng.choice([0, 1, 2]), "hole": rng.random() < 0.5, "density": None})
@@ -153,7 +153,8 @@ class C04(World):
         st = {}
         if kind == "mesh":
             st.update({"P": np.array(o.vertices), "F": np.array(o.faces), "visual_kind": o.visual.kind, "meta": repr(sorted((k, repr(v)) for k, v in o.metadata.items() if k != "processed")),
-                       "fa": {k: np.array(v) for k, v in o.face_attributes.items()}, "va": {k: np.array(v) for k, v in o.vertex_attributes.items()}})
+                       "fa": {k: np.array(v) for k, v in o.face_attributes.items()}, "va": {k: np.array(v) for k, v in o.vertex_attributes.items()},
+                       "cm_override": None if o._data.data.get("center_mass") is None else np.array(o._data.data["center_mass"], dtype=float)})
             if o.visual.kind == "vertex":
                 st["colors"] = np.array(o.visual.vertex_colors)
             if o.visual.kind == "face":
@@ -317,6 +318,22 @@ class C04(World):
                     ctx.fail("rejected", kind + "-" + kk, f"{cls} raised {outcomes[0]} but changed the object: {bad}")
                 return
             total = E @ total
+        if kind == "points" and len(objs[2].vertices) >= 5:
+            # what the cloud answers FIRST after the call, before anything else touches its arrays: hull, tree, hash
+            import trimesh
+
+            o2 = objs[2]
+            try:
+                first_reads = (float(o2.convex_hull.volume), np.array(o2.kdtree.query(np.array([[0.1, 0.2, 0.3], [-1.0, 1.0, 0.5]]))[0]), o2.__hash__())
+            except (KeyboardInterrupt, SystemExit, MemoryError):
+                raise
+            except BaseException as e:
+                ctx.fail("model", "points-first-read-raises", f"{type(e).__name__}: {e}")
+            f2 = trimesh.PointCloud(np.array(o2.vertices).tolist())
+            want_reads = (float(f2.convex_hull.volume), np.array(f2.kdtree.query(np.array([[0.1, 0.2, 0.3], [-1.0, 1.0, 0.5]]))[0]), f2.__hash__())
+            ctx.count("check:points-first-reads")
+            if same(first_reads[0], want_reads[0], 1e-9 * max(1.0, abs(want_reads[0])), "hull") or same(first_reads[1], want_reads[1], 1e-9, "kdtree") or first_reads[2] != want_reads[2]:
+                ctx.fail("model", "points-derived-first-read", f"{kind} {k}:{cls}: hull volume / nearest distances / hash read first after the call {first_reads} differ from a fresh cloud {want_reads}")
         after = [self._state(kind, o) for o in objs]
         # (i) identical arrays for every draw of the library RNG
         for i in (1, 2):
@@ -357,6 +374,11 @@ class C04(World):
             for key in ("colors", "fa", "va", "meta", "visual_kind"):
                 if key in b and same(a.get(key), b[key], 0, key) if not isinstance(b.get(key), str) else a.get(key) != b.get(key):
                     fail("attached-" + key, "changed by the transform")
+            if b.get("cm_override") is not None:
+                # an assigned centre of mass is a point of the body: it maps through M like every other point
+                wantc = mx.apply(M, b["cm_override"][None])[0]
+                if a.get("cm_override") is None or same(a["cm_override"], wantc, (1e-9 + tol) * scale, "center_mass override"):
+                    fail("center_mass-override", f"assigned centre of mass {a.get('cm_override')} != M.c {wantc}")
             V, F = a["P"], a["F"]
             if len(F) and abs(det) > 1e-6:
                 T0, T1 = b["P"][b["F"]], V[F]
@@ -377,7 +399,8 @@ class C04(World):
                                 fail("area", f"{o.area} != s^2 * {tri_area(T0)}")
                             Q = lin / s
                             wantI = (s**5) * Q @ I0 @ Q.T * float(o.density)
-                            if same(np.asarray(o.moment_inertia), wantI, 1e-8, "inertia"):
+                            # (with an assigned centre of mass the reported tensor is taken about that point: not the quantity modelled here)
+                            if "center_mass" not in o._data and same(np.asarray(o.moment_inertia), wantI, 1e-8, "inertia"):
                                 fail("inertia", "moment_inertia does not follow the tensor law")
                     if not o.is_volume and v0 > 1e-9:
                         fail("valid-solid", "a valid solid is no longer a volume after an invertible transform")
@@ -427,21 +450,28 @@ class C04(World):
                 fresh = trimesh.PointCloud(np.array(a["P"]))
             else:
                 return
+        def read(obj, name):
+            if name == "polygon_boxes":
+                # where the regions are: the bounding boxes of the full polygons, in a canonical order
+                boxes = np.array([pg.bounds for pg in obj.polygons_full], dtype=float).reshape(-1, 4)
+                return boxes[np.lexsort(np.round(boxes, 6).T[::-1])] if len(boxes) else boxes
+            return getattr(obj, name)
+
         for name, t in DERIVED.get(kind, []):
             try:
-                want = getattr(fresh, name)
+                want = read(fresh, name)
             except (KeyboardInterrupt, SystemExit, MemoryError):
                 raise
             except BaseException:
                 continue  # not defined for this object (open path area ...): nothing to compare
             try:
-                got = getattr(o, name)
+                got = read(o, name)
             except (KeyboardInterrupt, SystemExit, MemoryError):
                 raise
             except BaseException as e:
                 fail("derived-" + name, f"raised {type(e).__name__}: {e} while a fresh object reports it")
             ctx.count("check:derived-" + name)
-            bad = same(np.asarray(got, dtype=float), np.asarray(want, dtype=float), max(t, tol) * (scale if name in ("bounds", "extents", "centroid", "length", "edges_unique_length") else (scale * scale if name in ("area", "area_faces") else 1.0)), name)
+            bad = same(np.asarray(got, dtype=float), np.asarray(want, dtype=float), max(t, tol) * (scale if name in ("bounds", "extents", "centroid", "length", "edges_unique_length", "polygon_boxes") else (scale * scale if name in ("area", "area_faces") else 1.0)), name)
             if bad:
                 fail("derived-" + name, f"differs from a freshly built object: {bad}")
 
